@@ -27,6 +27,13 @@ def main(ctx):
         return senderlib.replay_one(ctx)
     plan = PLANS[ctx.prop]
     fams = {}
+    # 1. design level: the mechanism specification composed with the monitors, exhaustively within the bounds,
+    #    and the broken variants that the monitors of this property must catch
+    senderlib.mc_sender(ctx, "ok", 6 if ctx.tier == "quick" else 8)
+    for variant, expect in senderlib.MC_VARIANTS[ctx.prop]:
+        senderlib.mc_sender(ctx, variant, 6, expect)
+    # 2. + 3. replay on the real Sender, verdict by the monitors, binding evidence by Trace_Sender
+    ctx.conformance_spec = "Trace_Sender"
     for fam, depth, nq, nt in plan:
         n = nq if ctx.tier == "quick" else nt
         if n == 0:
@@ -39,13 +46,14 @@ def main(ctx):
         fams[label] = {"enumerated_by_tlc": total, "replayed": len(behs), "exhaustive": len(behs) == total}
     senderlib.own_and_panics(ctx, ctx.prop)
     nviol_checks = ctx.events
+    ctx.conformance_spec = None
     cov = {"states": sum(m["states"] for m in ctx.mc) + ctx.events,
            "transitions": sum(m["generated"] for m in ctx.mc) + ctx.events,
            "traces_validated_against_impl": ctx.traces,
            "events_judged_by_monitor": ctx.events,
            "families": fams,
            "exhaustive": all(f["exhaustive"] for f in fams.values()),
-           "explanation": "behaviours enumerated by TLC from Gen_Sender.tla (%s), replayed on the real Sender with a virtual clock, every recorded event judged by the TLA+ monitor SenderProps.tla (Mon_Sender); 'states' counts generator states plus monitor states (one per event)" % TEXT[ctx.prop]}
+           "explanation": "(1) MC_Sender: the mechanism specification Sender.tla composed with the monitors is model-checked for every interleaving of add / publish / remove / advance / read / drain within the bounds (no monitor conjunct violated), and deliberately broken variants of the mechanism must trip the monitors of this property; (2) behaviours enumerated by TLC from Gen_Sender.tla (%s) are replayed on the real Sender with a virtual clock and every recorded event is judged by the TLA+ monitor SenderProps.tla (Mon_Sender): this is the verdict; (3) the same traces are checked against the mechanism specification (Trace_Sender): 'mechanism_conformance' reports matched / drifted behaviours (binding evidence, not an alarm).  'states' counts MC, generator and monitor states (one per event)" % TEXT[ctx.prop]}
     return finish(ctx, "model_checking", cov, [
         "packets are decoded by the harness's own RFC decoder (rfcdec), FDT XML by expat",
         "the timing of automatic FDT publications is read from the hook snapshot (next FDT id)",
